@@ -66,15 +66,16 @@ var fetchErrs = []error{
 func (w *world) fetchErr() error { return fetchErrs[w.failErr%len(fetchErrs)] }
 
 type world struct {
-	futures    []*pg
-	nextFuture int
-	fetches    int
-	stop       func() // stops the paginator (set once it exists)
-	stoppedBy  int    // number of fetches that stopped the paginator
-	nilItems   bool   // see scenario.NilItems
-	failWith   int    // see scenario.FailWithPage
-	failErr    int    // see scenario.FailErr
-	lastNil    int64  // the number of the item most recently handed out as nil
+	futures        []*pg
+	nextFuture     int
+	fetches        int
+	stop           func() // stops the paginator (set once it exists)
+	stoppedBy      int    // number of fetches that stopped the paginator
+	nilItems       bool   // see scenario.NilItems
+	failWith       int    // see scenario.FailWithPage
+	failErr        int    // see scenario.FailErr
+	fetchAfterStop string // first call after Stop / Close during which a page was fetched ("" none)
+	lastNil        int64  // the number of the item most recently handed out as nil
 }
 
 type pg struct {
@@ -126,6 +127,9 @@ func (p *pg) fetchNext() (*pg, error) {
 	return p.next, nil
 }
 func (p *pg) GetNext(ctx context.Context) (pagination.IPage, error) {
+	if e := ctx.Err(); e != nil {
+		return nil, e // a real fetcher honours the context it is given: nothing is fetched once it has ended
+	}
 	n, err := p.fetchNext()
 	if err != nil {
 		if p.w.failWith == 0 {
@@ -170,6 +174,9 @@ func (p *pg) fetchFuture() (*pg, error) {
 	return f, nil
 }
 func (p *pg) GetFuture(ctx context.Context) (pagination.IStream, error) {
+	if e := ctx.Err(); e != nil {
+		return nil, e
+	}
 	n, err := p.fetchFuture()
 	if err != nil && p.w.failWith != 0 {
 		return n, err // a junk page, or a typed nil, next to the error
@@ -217,6 +224,7 @@ func errKind(err error) string {
 // execute runs the scenario on the real paginator; outs has one entry per op.
 func execute(sc scenario) (ctorOK bool, ctorNilNil bool, outs []string, stopAt int) {
 	stopAt = -1
+	lastFetchAfterStop = ""
 	w := &world{nilItems: sc.NilItems, failWith: sc.FailWithPage, failErr: sc.FailErr}
 	first := chain(w, sc.Pages)
 	for _, f := range sc.Futures {
@@ -238,7 +246,10 @@ func execute(sc scenario) (ctorOK bool, ctorNilNil bool, outs []string, stopAt i
 		}
 		return nil
 	}
-	staticNext := func(_ context.Context, cur pagination.IStaticPage) (pagination.IStaticPage, error) {
+	staticNext := func(fctx context.Context, cur pagination.IStaticPage) (pagination.IStaticPage, error) {
+		if e := fctx.Err(); e != nil {
+			return nil, e
+		}
 		n, err := cur.(*pg).fetchNext()
 		if err != nil {
 			if w.failWith == 0 {
@@ -248,7 +259,10 @@ func execute(sc scenario) (ctorOK bool, ctorNilNil bool, outs []string, stopAt i
 		}
 		return n, nil
 	}
-	staticFuture := func(_ context.Context, cur pagination.IStaticPageStream) (pagination.IStaticPageStream, error) {
+	staticFuture := func(fctx context.Context, cur pagination.IStaticPageStream) (pagination.IStaticPageStream, error) {
+		if e := fctx.Err(); e != nil {
+			return nil, e
+		}
 		n, err := cur.(*pg).fetchFuture()
 		if err != nil && w.failWith != 0 {
 			return n, err
@@ -312,8 +326,10 @@ func execute(sc scenario) (ctorOK bool, ctorNilNil bool, outs []string, stopAt i
 		return false, err == nil && isNil, nil, -1
 	}
 	w.stop = func() { p.Stop()() }
+	stoppedAt := -1 // index of the first Stop / Close made by the caller
 	for i, o := range sc.Ops {
 		before := w.stoppedBy
+		fetchesBefore := w.fetches
 		switch o {
 		case "H":
 			outs = append(outs, fmt.Sprintf("b:%v", p.HasNext()))
@@ -344,9 +360,19 @@ func execute(sc scenario) (ctorOK bool, ctorNilNil bool, outs []string, stopAt i
 		if stopAt < 0 && w.stoppedBy > before {
 			stopAt = i // the paginator was stopped by a page fetch made during this call
 		}
+		if stoppedAt >= 0 && i > stoppedAt && w.fetches > fetchesBefore && w.fetchAfterStop == "" {
+			w.fetchAfterStop = fmt.Sprintf("op %d (%s) fetched %d page(s) although the paginator had been stopped at op %d", i, o, w.fetches-fetchesBefore, stoppedAt)
+		}
+		if stoppedAt < 0 && (o == "S" || o == "C") {
+			stoppedAt = i
+		}
 	}
+	lastFetchAfterStop = w.fetchAfterStop
 	return true, false, outs, stopAt
 }
+
+// lastFetchAfterStop: set by execute (read by runScenario once the scenario's goroutine has handed over its result)
+var lastFetchAfterStop string
 
 func coqPage(p pageSpec) string {
 	switch p.Kind {
@@ -678,6 +704,11 @@ func runScenario(r *h.Run, sc scenario, emit bool) {
 	r.Eval()
 	if !ok {
 		return
+	}
+	if lastFetchAfterStop != "" {
+		// "Stop / Close end the iteration": the page fetchers are handed a context that Stop and Close cancel, and a
+		// stopped paginator asks them for nothing any more (with a never-ending stream the call would not even return)
+		r.Fail("page-fetched-after-stop:"+sc.Paginator, lastFetchAfterStop, sc)
 	}
 	oracle(r, sc, ctorOK, nilNil, outs, stopAt)
 	for _, ps := range append([][]pageSpec{sc.Pages}, sc.Futures...) {
